@@ -6,10 +6,11 @@ import CnbVerif.Spec.Grammar
 Driver glue for C09. Fields: `<kind> <string> <extra>`; `<string>` = hex code points joined by `,` (`-` = empty, the field
 `./check` shrinks), `<extra>` = `-` when unused.
 
-* kind `layer | process | bpid | execd`: `<string>` is the input. Observation `p=<r>;t=<r>` (`str::parse`, TOML
-  deserialisation) with `<r>` = `err` or `ok:<Display>:<Serialize>` (code points).
-* kind `version | api`: `<string>` is the input. Observation `p=<r>;t=<r>` (`TryFrom<String>`, TOML deserialisation) with
-  `<r>` = `err` or `ok:<numbers joined by .>:<Display>:<numbers of the re-parsed Display | err>`.
+* kind `layer | process | bpid | execd`: `<string>` is the input. Observation `p=<r>;t=<r>;u=<r>;j=<r>;k=<r>` (`str::parse`,
+  deserialisation of a TOML value, of a TOML value spelled with escapes, of a JSON string, of a TOML table key) with
+  `<r>` = `err` or `ok:<Display>:<Serialize>` (code points).
+* kind `version | api`: `<string>` is the input. Observation `p=<r>;t=<r>;u=<r>;j=<r>;k=<r>` (`TryFrom<String>`, the same
+  deserialisation paths) with `<r>` = `err` or `ok:<numbers joined by .>:<Display>:<numbers of the re-parsed Display | err>`.
 * kind `mlayer | mprocess | mbpid | mexecd`: `<extra>` = a batch of literals joined by `/`, code points joined by `.`.
   Observation: one `1`/`0` per literal (the literal macro compiled / was rejected with `compile_error!`).
 * kind `xlayer | … | xversion | xapi`: `<string>` = a prefix, `<extra>` = `<alphabet code points joined by .>|<depth>`: all
@@ -84,14 +85,28 @@ def specApiResult (s : List Char) : String :=
   | some (a, b) => "ok:" ++ nums [a, b] ++ ":" ++ renderCps (Spec.apiText a b) ++ ":" ++ nums [a, b]
   | none => "err"
 
-/-- both paths of the observation must equal what the spec demands -/
-def judgeTwo (obs : String) (expected : String) : String :=
-  match obs.splitOn ";" with
-  | [p, t] =>
-    if p != "p=" ++ expected then "fail:parse gives " ++ p.drop 2 ++ " but the spec demands " ++ expected
-    else if t != "t=" ++ expected then "fail:deserialisation gives " ++ t.drop 2 ++ " but the spec demands " ++ expected
-    else "ok"
-  | _ => "fail:unparsable-observation"
+/-- the entry paths of one observation, in the harness's order: `p` run-time parsing (`str::parse` / `TryFrom<String>`),
+`t` TOML value as the toml crate spells it, `u` TOML value spelled with `\u` escapes only, `j` JSON string, `k` TOML table key -/
+def pathNames : List String := ["p", "t", "u", "j", "k"]
+
+def pathWhat (n : String) : String :=
+  if n = "p" then "parse" else if n = "t" then "deserialisation" else if n = "u" then "deserialisation (escaped TOML string)"
+  else if n = "j" then "deserialisation (JSON)" else "deserialisation (TOML table key)"
+
+/-- what the model says for every path -/
+def allPaths (m : String) : String := String.intercalate ";" (pathNames.map (fun n => n ++ "=" ++ m))
+
+/-- every path of the observation must equal what the spec demands -/
+def judgePaths (obs : String) (expected : String) : String :=
+  let parts := obs.splitOn ";"
+  if parts.length != pathNames.length then "fail:unparsable-observation"
+  else
+    match (pathNames.zip parts).find? (fun np => np.2 != np.1 ++ "=" ++ expected) with
+    | none => "ok"
+    | some (n, got) =>
+      if got.startsWith (n ++ "=") then
+        "fail:" ++ pathWhat n ++ " gives " ++ (got.drop (n.length + 1)).toString ++ " but the spec demands " ++ expected
+      else "fail:unparsable-observation"
 
 def macroKind (k : String) : Option String :=
   if k = "mlayer" then some "layer" else if k = "mprocess" then some "process"
@@ -161,7 +176,7 @@ def handle (fields : List String) (obs : String) : String × String :=
       (match parseCps "," str, extra with
       | some s, "-" =>
         let m := identResult re s
-        ("p=" ++ m ++ ";t=" ++ m, judgeTwo obs (specIdentResult lang s))
+        (allPaths m, judgePaths obs (specIdentResult lang s))
       | _, _ => ("bad-op", "bad-op"))
     | none =>
     match (macroKind kind).bind identKind with
@@ -186,11 +201,11 @@ def handle (fields : List String) (obs : String) : String × String :=
     | none =>
     if kind = "version" then
       match parseCps "," str, extra with
-      | some s, "-" => let m := versionResult s; ("p=" ++ m ++ ";t=" ++ m, judgeTwo obs (specVersionResult s))
+      | some s, "-" => let m := versionResult s; (allPaths m, judgePaths obs (specVersionResult s))
       | _, _ => ("bad-op", "bad-op")
     else if kind = "api" then
       match parseCps "," str, extra with
-      | some s, "-" => let m := apiResult s; ("p=" ++ m ++ ";t=" ++ m, judgeTwo obs (specApiResult s))
+      | some s, "-" => let m := apiResult s; (allPaths m, judgePaths obs (specApiResult s))
       | _, _ => ("bad-op", "bad-op")
     else if kind = "vtriple" then
       match str, parseNums extra with
